@@ -52,7 +52,8 @@ META.update({
     "C04": {
         "text": "RollKernels2.tla models the cross sums of the two-series kernels against normal-equation least squares over "
                 "pairwise-complete observations with explicit residuals; the trend family is in RollKernels.tla; TLC checks "
-                "NoDrift2, OutDef2, MaskLaw2 and PerfectLineZeroResidual over all pairs of series within the bound." + TWOWAY,
+                "NoDrift2, OutDef2, MaskLaw2 and PerfectLineZeroResidual over all pairs of series within the bound, and NoDrift2W / "
+                "Step2OK on the history-free graph of RollWin2.tla (histories of every length)." + TWOWAY,
         "note": NOTE + " Constant regressor / zero variance windows are unspecified (DESIGN 5.6); SSE and residual std/skew "
                 "bound by replay only.",
         "design": "DESIGN.md section 6 C04",
